@@ -128,6 +128,49 @@ def rerun_case(args):
         sc.close()
 
 
+def odd_command_case(args):
+    """failing commands of unusual size or kind: a command line longer than the 128 kB limit of a single exec argument (a very
+    long parameter value), a command that fails after its output is written, a writer of a stream killed by SIGPIPE because
+    its reader stops early: the program exits non-zero, reports no completion, the failing task's outputs are absent and no
+    dependant executes"""
+    seed, i = args
+    rng = random.Random(seed * 32452883 + i)
+    sp = t3.Spec(maxtasks=rng.randint(2, 3), bufsize=rng.choice([1, 128]))
+    kind = i % 2
+    if kind == 0:
+        n = rng.choice([1000, 131000, 131072, 140000, 300000])
+        blob = "x" * n
+        big = sp.proc(t3.RawProc("big", "echo {p:blob} > {o:out} && grep -q NOSUCHTHING {o:out}", ins=[], pars=[("blob", ("V", [blob]))], outs=[("out", "big.out")]))
+        sp.proc(t3.RawProc("dep", "cat {i:in} > {o:out} && echo ran >> ../dep.ran", ins=[("in", [(big, "out")])], outs=[("out", "{i:in}.dep")]))
+        victim_outs, what = ["big.out"], "a failing command of %d bytes" % (n + 60)
+    else:
+        n = rng.choice([200000, 1000000])
+        gen = sp.proc(t3.RawProc("gen", "seq 1 %d | tee {o:copy} > {os:stream}" % n, ins=[], outs=[("copy", "gen.copy"), ("stream", "gen.stream")], stream_outs=["stream"]))
+        sp.proc(t3.RawProc("first", "head -n %d {i:in} > {o:out}" % rng.randint(1, 5), ins=[("in", [(gen, "stream")])], outs=[("out", "{i:in}.first")]))
+        sp.proc(t3.RawProc("dep", "wc -l {i:in} > {o:out} && echo ran >> ../dep.ran", ins=[("in", [(gen, "copy")])], outs=[("out", "{i:in}.dep")]))
+        victim_outs, what = ["gen.copy"], "a stream writer killed by SIGPIPE (its reader stopped early)"
+    sc = t3.Scratch()
+    try:
+        sc.plant(sp.files)
+        impl = t3.run_impl(sc, sp, timeout=60)
+        problems = []
+        if impl["timed_out"]:
+            problems.append(("hang", "the workflow with %s does not terminate" % what))
+        if impl["rc"] == 0:
+            problems.append(("silent-failure", "%s: the program exits 0%s" % (what, " and reports completion" if impl["returned"] else "")))
+        elif impl["returned"]:
+            problems.append(("completion-reported", "%s: Run returned" % what))
+        for o in victim_outs:
+            if o in impl["fs"]:
+                problems.append(("failed-output-appeared", "%s: its output %r is at the final path" % (what, o)))
+        if "dep.ran" in impl["fs"]:
+            problems.append(("dependant-executed", "%s: a task that depends on its output executed" % what))
+        return {"spec": sp.text(with_files=False)[:4000], "bufsize": sp.bufsize, "problems": problems, "ntasks": 2, "rc": impl["rc"], "stderr": impl["stderr"][-300:],
+                "yield": None, "wall": impl["wall"], "mode": "long-command" if kind == 0 else "sigpipe", "gofunc": False, "status": "fail"}
+    finally:
+        sc.close()
+
+
 def run(rep, tier, seed):
     proved = vlib.prove(rep, MODULE, THEOREMS)
     ok, msg = vlib.build_ocaml()
@@ -136,10 +179,11 @@ def run(rep, tier, seed):
     n = 120 if tier == "quick" else 2400
     results = [r for r in t3.run_many(case, [(seed, i) for i in range(n)]) if r]
     results += [r for r in t3.run_many(rerun_case, [(seed, i) for i in range(n // 5)]) if r]
+    results += t3.run_many(odd_command_case, [(seed, i) for i in range(n // 10)])
     t3.report_t3(rep, MODULE, proved, results, "T3 failure injection")
     rep.cov["evaluations"] = len(results)
     rep.cov["distinct_nontrivial"] = len({r["spec"] for r in results if r["ntasks"] >= 2})
-    rep.cov["rule"] = "random workflows in which one task (chosen among those the model executes) fails in one of five ways (non-zero exit before writing / after a partial write / after writing everything, output omitted, killed by SIGKILL), as a shell command or a Go function, while sibling processes are kept busy; plus task-formation failures (empty parameter value, invalid character in an output path); histories in which the command wrote every output before it failed and the workflow is started again as it is; monitor: exit status non-zero, no completion marker, the failing task's outputs absent, no command outside the model's allowed set (no dependants), every finalized file has the model's content; non-trivial = at least two tasks in the workflow"
+    rep.cov["rule"] = "random workflows in which one task (chosen among those the model executes) fails in one of five ways (non-zero exit before writing / after a partial write / after writing everything, output omitted, killed by SIGKILL), as a shell command or a Go function, while sibling processes are kept busy; plus task-formation failures (empty parameter value, invalid character in an output path); histories in which the command wrote every output before it failed and the workflow is started again as it is; failing commands longer than the 128 kB exec-argument limit and stream writers killed by SIGPIPE; monitor: exit status non-zero, no completion marker, the failing task's outputs absent, no command outside the model's allowed set (no dependants), every finalized file has the model's content; non-trivial = at least two tasks in the workflow"
     rep.cov["samples"] = [results[0]["spec"]]
     modes = {}
     for r in results:
